@@ -47,7 +47,7 @@ fn c15_cycle<K: Kt>(_a: &Args, s: &mut Session<K>, h: &History, upto: usize, n_r
     let cfg = match rng.below(3) {
         0 => h.cfg,
         1 => Cfg { buckets: h.cfg.buckets, key: Cfg::random_buf(rng), val: Cfg::random_buf(rng), htx: Cfg::random_buf(rng) },
-        _ => Cfg::random(rng, false),
+        _ => Cfg::random_reopen(rng),
     };
     if let Err(e) = s.open(&cfg) {
         return Some(ctx.classify(finding(&["C02"], "reopen", upto, e)));
